@@ -850,11 +850,19 @@ func c12bare(sc *sim.Scenario, env *sim.Env) *sim.Violation {
 			for k := 0; k < n; k++ {
 				r := cpu.Regs()
 				fetch := r.PCL()
+				// what the CPU sees at an address: the second device where it is attached (which
+				// may cover the vectors), the first one elsewhere
+				peek := func(a uint32) byte {
+					if splitMem != nil && a >= splitLo && a < splitLo+0x1000 {
+						return splitMem.Peek(a)
+					}
+					return mem.Peek(a)
+				}
 				switch r.Interrupt {
 				case 2: // NMI: vector $00:FFEA, program bank unchanged by this implementation
-					fetch = uint32(r.RK)<<16 | uint32(mem.Peek(0xFFEA)) | uint32(mem.Peek(0xFFEB))<<8
+					fetch = uint32(r.RK)<<16 | uint32(peek(0xFFEA)) | uint32(peek(0xFFEB))<<8
 				case 3: // IRQ: vector $00:FFEE
-					fetch = uint32(mem.Peek(0xFFEE)) | uint32(mem.Peek(0xFFEF))<<8
+					fetch = uint32(peek(0xFFEE)) | uint32(peek(0xFFEF))<<8
 				}
 				if r.Interrupt == 2 || r.Interrupt == 3 {
 					st.Probe("interrupt_taken")
@@ -864,12 +872,6 @@ func c12bare(sc *sim.Scenario, env *sim.Env) *sim.Violation {
 						st.Abort("interrupt_stack_overlaps_handler")
 						return nil
 					}
-				}
-				peek := func(a uint32) byte {
-					if splitMem != nil && a >= splitLo && a < splitLo+0x1000 {
-						return splitMem.Peek(a)
-					}
-					return mem.Peek(a)
 				}
 				opc := peek(fetch)
 				opd := peek(fetch&0xFF0000 | uint32(uint16(fetch)+1))
